@@ -7,7 +7,7 @@ const gcp = "grpcgcp"
 var commonAssume = []string{
 	"go/ssa (x/tools v0.29.0) SSA of the working tree is the semantics of the code; the symgo executor, cvc5 1.0.3 and z3 5.1.0 are trusted",
 	"bounded claim: holds for the stated universe / unrolling / value ranges only (coverage.bounds)",
-	"environment stubs of DESIGN.md section 4: fake balancer.ClientConn/SubConn (NewSubConn fails on an empty address list or when the persistent failNew flag is set), ghost mutexes, virtual clock (time.Now redirected to the harness clock), logging/formatting opaque, status.Code summarised on the harness error kinds, getAffinityKeysFromMessage summarised on the harness message type (validated by C11)",
+	"append follows Go's aliasing semantics in the grpcgcp and e2e-checksum jobs: in place when cap suffices, otherwise a new array with ANY capacity in [needed, needed+6] (solver variable); the multiendpoint and prober jobs use copy-on-append", "environment stubs of DESIGN.md section 4: fake balancer.ClientConn/SubConn (NewSubConn fails on an empty address list or when the persistent failNew flag is set), ghost mutexes, virtual clock (time.Now redirected to the harness clock), logging/formatting opaque, status.Code summarised on the harness error kinds, getAffinityKeysFromMessage summarised on the harness message type (validated by C11)",
 }
 
 var gbBounds = map[string]string{
@@ -130,7 +130,7 @@ func allProps() []Prop {
 		meJobs = append(meJobs, Job{Dir: me, Harness: "multiendpoint", Entry: "VerifH_me", Flags: []string{fmt.Sprintf("n0=%d", n0), "steps=2"}, Tier: "thorough", TmoMs: 120000})
 	}
 	ckBounds := map[string]string{"payload": "standard encoding of 0..4 (quick) / 0..16 (thorough) arbitrary bytes; all 2^32 checksum values; two Marshal calls in a row (independence of the outputs); the package initialiser of the package under test is executed", "loop unroll": "20"}
-	ckJobs := []Job{{Dir: "e2e-checksum", Harness: "e2e-checksum", Entry: "VerifH_ck", Unroll: 24, Flags: []string{"runInit", "appendCaps"}}}
+	ckJobs := []Job{{Dir: "e2e-checksum", Harness: "e2e-checksum", Entry: "VerifH_ck", Unroll: 24, Flags: []string{"runInit"}}}
 	keysBounds := map[string]string{
 		"type family": "vTop{Id string; Mid *vMid; Mids []*vMid; Leaf vLeaf}, vMid{Key string; In *vLeaf; Items []*vLeaf; Vals []vLeaf; Names []string; Nums []int64; Any interface{} (nil | string | *vLeaf | vLeaf); M map[string]string}, vLeaf{Name string; Num int64; Flag bool; hidden string}; every pointer possibly nil; slices of 0..2; plus nil / string / []string messages, the harness message type and generated pb.AffinityConfig / pb.MethodConfig",
 		"locator":     "path of 1..4 segments, each a symbolic choice among the field names in either case, an unknown name, the empty segment (strings.Split is exercised separately on 7 constant locators)",
